@@ -123,7 +123,7 @@ def plan(tier, seed):
 def minimums(tier):
     return {"hexdump.calls": 5000, "hexdump.default_layout_roundtrips": 2000, "parse.format_checks": 6000,
             "parse.short_last_line": 1500, "parse.with_comments": 800, "cli.hex_checked": 40, "layouts.checked": 400, "parse.beyond_64k": 20,
-            "parse.dump_file_checks": 500, "parse.lines_as_generator": 500, "parse.lines_as_file": 300, "parse.lines_as_tuple": 500, "parse.dump_file_hexlike_heading": 60, "parse.old_format_trimmed_lines": 300, "parse.near_miss_lines": 300}
+            "parse.dump_file_checks": 500, "parse.lines_as_generator": 500, "parse.lines_as_file": 300, "parse.lines_as_tuple": 500, "parse.dump_file_hexlike_heading": 60, "parse.old_format_trimmed_lines": 300, "parse.near_miss_lines": 300, "parse.markup_like_text": 200}
 
 
 def finish(m, tier):
@@ -175,6 +175,16 @@ def run(spec, ctx):
                 n = rng.choice([65535, 65536, 65537, 65552, 70000, 131072 + 5])
                 ctx.count("parse.beyond_64k")
             d = gen_bytes(rng, n)
+            if n >= 40 and i % 9 == 4:
+                # memory that holds text which looks like markup: it shows up in the character column, it is still a dump
+                a, b = sorted(rng.sample(range(0, n - 8), 2))
+                d = bytearray(d)
+                d[a:a + 5] = rng.choice([b"<pre>", b"<PRE>", b"<pre "])
+                d[b + 5 - 5 + 5:b + 5 + 6] = b"</pre>"
+                if rng.random() < 0.5:
+                    d[max(0, a - 16):max(0, a - 16) + 6] = b"<html>"
+                d = bytes(d[:n])
+                ctx.count("parse.markup_like_text")
             lower, strip = rng.random() < 0.3, rng.random() < 0.3
             if name == "default":
                 lines = iomodels.ref_hexdump(d)
